@@ -349,7 +349,9 @@ func refillHeap() {
 		// objects WITH pointers live in other spans than pointer-free ones: records of functions, module
 		// engines and instances are of this kind.  Every word points at one poisoned sentinel.
 	}
-	for _, sz := range []int{16, 24, 32, 48, 64, 80, 96, 112, 128, 144, 160, 176, 192, 208, 224, 240, 256, 288, 320, 352, 384, 416, 448, 480, 512} {
+	for _, sz := range []int{16, 24, 32, 48, 64, 80, 96, 112, 128, 144, 160, 176, 192, 208, 224, 240, 256, 288, 320, 352, 384, 416, 448, 480, 512,
+		// (arrays of function records of modules with more functions)
+		576, 640, 704, 768, 896, 1024, 1152, 1280, 1408, 1536, 1792, 2048} {
 		for i := 0; i < 2000; i++ {
 			p := make([]*[128]byte, sz/8)
 			for j := range p {
@@ -1239,19 +1241,39 @@ func (r *runner) dangling() sim.Result {
 		junk = nil
 	}
 	after := "?"
+	var wide [][]*[128]byte
 	for i := 0; i < 50; i++ {
 		after = outcome(c.mod.ExportedFunction("call").Call(r.ctx, 0, 1))
 		if after != before {
 			break
 		}
 		drainFinalizers(1)
+		// refill EVERY size class of pointerful objects up to 4 KiB (instance, engine and function records of
+		// whatever size this tree gives them), every word pointing at the poisoned sentinel
+		wide = wide[:0]
+		for sz := 16; sz <= 4096; sz += 16 {
+			n := 200
+			if sz <= 512 {
+				n = 20000 // (small classes have many partially used spans: fill them all)
+			}
+			for k := 0; k < n; k++ {
+				p := make([]*[128]byte, sz/8)
+				for j := range p {
+					p[j] = &heapSentinel
+				}
+				wide = append(wide, p)
+			}
+		}
 	}
+	wide = nil
 	var res sim.Result
 	res.Logf("dangling reference survived: before=%s after=%s", before, after)
 	res.Nontrivial = true
 	res.Shape = "survived"
-	if after != before && !strings.HasPrefix(after, "error: ") {
-		// wrong result without a crash is the same finding (reads reused heap)
+	if after != before {
+		// a wrong result or an error that the call did not give before (typically "indirect call type
+		// mismatch": the function record's type word is whatever the collector's next tenant wrote there)
+		// without a crash is the same finding: the call reads reused heap
 		res.Known = []string{danglingSig}
 		res.Stat("probe.dangling_reference_wrong_result", 1)
 	} else {
